@@ -154,6 +154,13 @@ func (st *State) assume(t Term) {
 	if t.IsTrue() {
 		return
 	}
+	if t.Op == "and" && len(t.Args) > 0 {
+		// conjuncts are recorded separately so that branch conditions can be decided syntactically
+		for _, a := range t.Args {
+			st.assume(a)
+		}
+		return
+	}
 	st.declSet["pc:"+t.S] = true
 	st.pc = append(st.pc, t)
 }
@@ -230,6 +237,12 @@ type Engine struct {
 	nowrapSites []nowrapSite
 	wantNowrap bool
 	lazyCells  map[string]int
+	reachCount map[string]int
+	fnCache    map[string]*ssa.Function
+	allFns     map[*ssa.Function]bool
+	lastSideSrc *State
+	lastSidePC, lastSideTrace int
+	lastSideClone *State
 	known      *KnownFile
 	prop       string
 	cellNames  map[int]string
